@@ -68,6 +68,18 @@ func (fs DirFs) Open(dir, fname string) File {
 }
 
 func (fs DirFs) ReadAt(f File, offset uint64, length uint64) []byte {
+	// read what exists from offset on, never allocating more than that:
+	// offsets beyond int64 and lengths beyond the file are legal arguments
+	var st unix.Stat_t
+	if err := unix.Fstat(f.fd(), &st); err != nil {
+		panic(err)
+	}
+	if offset >= uint64(st.Size) {
+		return nil
+	}
+	if length > uint64(st.Size)-offset {
+		length = uint64(st.Size) - offset
+	}
 	p := make([]byte, length)
 	n, err := unix.Pread(f.fd(), p, int64(offset))
 	if err != nil {
